@@ -19,6 +19,8 @@ package store
 import (
 	"crypto/sha256"
 	"fmt"
+
+	"github.com/codenotary/immudb/embedded/simhook"
 )
 
 type TxReader struct {
@@ -36,6 +38,9 @@ type TxReader struct {
 }
 
 func (s *ImmuStore) NewTxReader(initialTxID uint64, desc bool, tx *Tx) (*TxReader, error) {
+	if simhook.Enabled {
+		simhook.BeforeLock("store.mutex", s.simTryMutex)
+	}
 	s.mutex.Lock()
 	defer s.mutex.Unlock()
 
